@@ -20,9 +20,17 @@ register('C10', 'proof',
                       'ELECTION / RESTARTING / SHUTTING_DOWN abort all jobs (C08 clause 3, C09 clause 2), those of OFF / FINAL do '
                       'not, and a refused transition (C08 findings) keeps the state: these cases are only covered by the '
                       'periodic check()',
-                      'clause 2 ApplicationJobs.check: contract written (contracts/wip_c10_check.txt) but not converged under '
-                      'the honest re-entrancy discipline - NOT claimed; safe:ValueError@check:582 is refuted there and '
-                      'reproduced natively (findings/C10_check_valueerror_demo.py)',
+                      'clause 2 ApplicationJobs.check IS under contract (contracts/c10_check.py CheckPerCommand / CheckRemovals, '
+                      'contracts/c10_check_decision.py CheckDecision: per command examined, TIMED_OUT => one fail_command(process, '
+                      'target, time of the last event) and the command has left the in-flight list BEFORE that re-entrant '
+                      'call-out and is not back at the end of its iteration; SUCCESS => it leaves; IN_PROGRESS => list untouched; '
+                      'the preconditions of the final next() are established) under the ASSUMED re-entrancy contract '
+                      'FailCommandCallOut. NOT decided: exception-freedom of the two list.remove as safe:ValueError obligations '
+                      '(contracts/wip_c10_check.txt: the invariant "not yet examined => still in flight or already stopped" is '
+                      'undecided across the call-out; ValueError at the SUCCESS removal is reproduced natively, '
+                      'findings/C10_check_valueerror_demo.py, not yet a registered finding); KeyError of fail_command on a target '
+                      'unknown to the mapper; the whole-call form of the per-command clauses (meta-argument: a for-loop over the '
+                      'copy visits each command once)',
                       'clause 4 is proved at job level (ApplicationJobs.on_instances_invalidation: every command in flight on a '
                       'lost instance leaves, the others stay, no exception; shape validity: duplicate-free in-flight list, '
                       'identifier list distinct from it); Commander.on_instances_invalidation (the loops over the jobs, then '
@@ -36,6 +44,13 @@ register('C10', 'proof',
                       'FsmOnProcessStateEvent (contracts/assumed_repo.py): nothing is framed; for every ApplicationJobs alive before the '
                       'call the re-entered Starter/Stopper keeps its in-flight list object, and its plan only shrinks: remaining '
                       'groups are the same list objects, sequence numbers leave in pickup order or all at once (ABORT/STOP)',
+                      'RE-ENTRANT CALL-OUT as seen from ApplicationJobs.check (contracts/c10_check.py FailCommandCallOut, ASSUMED, '
+                      'read from the code of the chain force_process_state -> fsm -> on_event -> next): only commands of the same '
+                      'process name targeted on the LOCAL instance whose on_event() says SUCCESS / FAILED leave the in-flight list '
+                      '(so a command of the caller\'s copy MAY have left: the known ValueError defect is not assumed away); the '
+                      'list stays duplicate-free; the commands in flight when check() started (ghost `held`) keep their target, '
+                      'their report and their counters and do not come back once they have left; the wiring and the '
+                      'preconditions of next() survive',
                       'rpc_handler.send_* are effects only (transport outside the model)',
                       'shape validity: one Supvisors root; the local identifier is a key of context.instances',
                       'FSM clauses: assumed call-out contracts of contracts/assumed_fsm.py (Commander.check / '
@@ -65,7 +80,8 @@ register('C03', 'proof',
                       'failure for every dropped command, ABORT / STOP wipe the plan, STOP sets stop_request)',
                       'ApplicationStartJobs.process_job is taken by contract (assumed): its placement callees belong to C04/C14/C16',
                       'termination of the recursion of next() (len(planned_jobs) decreases) is not an engine obligation',
-                      'add_commands (user start_process merged into a running job) is outside the statement scope'],
+                      'add_commands (user start_process merged into a running job) is outside the statement scope (its stop '
+                      'variant is under contract for C09 / C05: contracts/c09_add_commands.py)'],
          assumptions=['"finished starting" is judged on the instance view info_map[target][state], not on the true remote state',
                       'RE-ENTRANT CALL-OUT discipline of contracts/assumed_repo.py FsmOnProcessStateEvent (see C10)',
                       'shape validity: planned groups are list objects distinct from the in-flight list'])
@@ -86,7 +102,16 @@ register('C09', 'proof',
                       'no contract yet. A re-entrancy defect of Commander.next on the restart path is reproduced natively '
                       '(findings/C09_restart_keyerror_demo.py: KeyError escapes fsm.on_process_state_event) but not yet an '
                       'obligation',
-                      'same ghost-history remark as C03'],
+                      'same ghost-history remark as C03',
+                      'third wave: ApplicationJobs.add_commands (stop variant; contracts/c09_add_commands.py: a stop command is '
+                      'only dropped as already planned when the job holds a command for the same process AND the same instance, '
+                      'per command of the request) and Stopper.restart_process / restart_application (contracts/c09_restart.py: '
+                      'the deferred start request is appended / stored BEFORE the stop call-out, read with effect_pre; earlier '
+                      'pending requests kept) ARE under contract. NOT decided: add_commands of a start job (on_command_added = '
+                      'C04 / C14 distribution); the whole-call form of the per-command clauses; that the request is still '
+                      'there when the stop ends (Stopper.after is reachable from the stop call-out itself through '
+                      'Commander.next when the new job completes at once); single-writer scan of process_start_requests / '
+                      'application_start_requests (shape precondition one-list-per-application) not mechanised'],
          assumptions=['RE-ENTRANT CALL-OUT discipline of contracts/assumed_repo.py FsmOnProcessStateEvent (see C10)',
                       'stop commands are built with their target (ProcessStopCommand.__init__)'])
 register('C07', 'proof',
@@ -390,7 +415,10 @@ register('C05', 'proof',
                       'ConciliationState._master_enter (2 call-pre obligations undecided within budget); '
                       'OperationState._master_next (needs _WorkingState._master_next, C06.3) not done',
                       'Stopper.stop_process builds commands only for running_identifiers ∩ identifiers: owned by the '
-                      'Commander contracts (C09/C10), assumed here as an effect'],
+                      'Commander contracts (C09/C10), assumed here as an effect; what happens to those commands next IS proved '
+                      '(third wave, group commander): add_commands keeps the stop command of EVERY copy (same process AND same '
+                      'instance is the only reason to drop one), restart_process (RESTART strategy) stops every copy and '
+                      'appends ONE deferred start after the pending ones (contracts/c09_add_commands.py, c09_restart.py)'],
          assumptions=['Starter/Stopper entry points (stop_process, default_restart_process, stop_application, '
                       'default_restart_application, Commander.next) are effect-only for the state read by C05/C06 contracts '
                       '(contracts/assumed_c05.py)',
